@@ -23,6 +23,7 @@ type memConn struct {
 	timer    *time.Timer
 	stalled  bool // writes block while stalled (a peer that stopped reading)
 	waiting  int  // broker goroutines currently blocked in Read
+	waitingW int  // broker goroutines currently blocked in Write (peer not reading)
 }
 
 type memAddr struct{}
@@ -67,6 +68,13 @@ func (m *memConn) Read(b []byte) (int, error) {
 	}
 }
 
+// WriterBlocked reports whether a broker goroutine is blocked in Write because the peer does not read.
+func (m *memConn) WriterBlocked() bool {
+	m.mu.Lock()
+	defer m.mu.Unlock()
+	return m.waitingW > 0
+}
+
 // ReaderBlocked reports whether a broker goroutine is blocked in Read with nothing to read.
 func (m *memConn) ReaderBlocked() bool {
 	m.mu.Lock()
@@ -78,7 +86,9 @@ func (m *memConn) Write(b []byte) (int, error) {
 	m.mu.Lock()
 	defer m.mu.Unlock()
 	for m.stalled && !m.closed && !m.inClosed {
+		m.waitingW++
 		m.cond.Wait()
+		m.waitingW--
 	}
 	if m.closed || m.inClosed {
 		return 0, io.ErrClosedPipe
